@@ -183,8 +183,11 @@ func propC19(c *ctx) error {
 		if sub != "" {
 			base[sub] = &fstest.MapFile{Mode: fs.ModeDir}
 		}
-		for p, content := range files {
-			base[pre+p] = &fstest.MapFile{Data: []byte(content)}
+		for _, p := range sortedKeys(files) {
+			// anything that is not a directory is a file to be matched: also symbolic links, pipes and entries with
+			// irregular mode bits (what matters is that the file system opens them)
+			mode := []fs.FileMode{0o644, 0o644, 0o644, 0o444, fs.ModeSymlink | 0o777, fs.ModeIrregular | 0o644, fs.ModeNamedPipe | 0o600}[r.n(7)]
+			base[pre+p] = &fstest.MapFile{Data: []byte(files[p]), Mode: mode}
 		}
 		// ---- faults
 		ifs := &instFS{base: base, openErr: map[string]bool{}, readErr: map[string]bool{}, dirErr: map[string]bool{}}
